@@ -57,6 +57,36 @@ CLAIMED.update({
     ),
 })
 
+CLAIMED.update({
+    "C18": (
+        "abstract evaluation of the resolved operators on the 3-point order domain (assumed relation between value-numbered ordinals), exhaustive",
+        "proof",
+        "Each of the 20 hand-written order operators is evaluated on every relation of (a.ordinal(), b.ordinal()) in {<, ==, >, unordered} and on every "
+        "foreign operand class (other models' ratings, None, number, str, object); __eq__ on the four orderings of (mu, sigma) and on foreign operands; "
+        "ordinal's normal form equals mu - z*sigma with default 3. The operators touch ordinals only through comparisons, so this finite space is the whole input space.",
+        "Trusted: osv/ai comparison semantics on assumed relations, polynomial normal form for the one-line ordinal formula. A hand-written __ne__ or total_ordering synthesis would be reported undecided.",
+        "DESIGN.md §5 C18",
+    ),
+    "C20": (
+        "abstract evaluation of rating/create_rating/constructor/deepcopy on option and shape domains with value-numbered arguments; read/write-set confinement",
+        "other",
+        "Defaulting uses the argument's own term unless it is None; create_rating transfers rating[0], rating[1], name on well-formed lists and rejects malformed ones with "
+        "TypeError/ValueError; the constructor stores parameters unchanged and generates the id inside the body; deepcopy returns a new object of its own class with every "
+        "attribute preserved; public operations read only mu and sigma of ratings. Bit-identity of rebuilt ratings is derived from the read sets, not measured.",
+        "Trusted: osv/ai. Not decided: uniqueness of uuid4 values.",
+        "DESIGN.md §5 C20",
+    ),
+    "C03": (
+        "information-flow (taint) analysis with validated-type facts by abstract interpretation; declassification only at comparisons of two raw values",
+        "other",
+        "Raw rank/score elements reach only sort keys, comparisons with another raw value, a uniform negation and type tests that cannot tell int/float/bool apart; "
+        "no raw value and no outcome of a type-separating test reaches a stored rating number; the sort key at position j is exactly ranks[j] / -scores[j]; "
+        "default ranks are positions, unsorted. This non-interference premise makes the result a function of the weak order for every encoding; the numbers themselves are not decided.",
+        "Trusted: osv/ai provenance propagation; the contract that sorting by a key depends on keys only through their order.",
+        "DESIGN.md §5 C03",
+    ),
+})
+
 NOT_APPLICABLE = {
     "C01": "numeric equality (1e-9) with published closed forms over a continuous input box: no sound static "
     "argument in reach; its structural necessary conditions are decided under C02/C03/C05/C06/C07/C16/C19",
